@@ -32,6 +32,9 @@ func main() {
 	workers := flag.Int("workers", 0, "worker processes (default: all cores)")
 	verifDir := flag.String("verif", "/verif", "verification directory")
 	info := flag.String("info", "", "extra key=value pairs recorded in the evidence (comma separated)")
+	replayInproc := flag.String("replay-inproc", "", "replay file, executed in this process (internal)")
+	skipFlag := flag.String("skip", "", "runs to skip (worker mode, internal)")
+	only := flag.Int("only", -1, "execute only this run (worker mode, internal)")
 	dump := flag.Int("dump", -1, "with -prop: print the plan of run N of the batch and exit")
 	cpuprofile := flag.String("cpuprofile", "", "write a CPU profile (replay)")
 	flag.Parse()
@@ -74,10 +77,12 @@ func main() {
 		plan.Format, plan.Property, plan.Seed, plan.Run, plan.Tier, plan.World = 1, p.ID, seed, *dump, *tier, p.World
 		b, _ := json.MarshalIndent(plan, "", " ")
 		fmt.Println(string(b))
-	case *replay != "":
-		code := engine.Replay(*replay, *quiet)
+	case *replayInproc != "":
+		code := engine.ReplayInProc(*replayInproc, *quiet)
 		pprof.StopCPUProfile()
 		os.Exit(code)
+	case *replay != "":
+		os.Exit(engine.Replay(*replay, *quiet))
 	case *worker:
 		p := engine.Registry[*prop]
 		if p == nil {
@@ -89,7 +94,13 @@ func main() {
 			fmt.Fprintln(os.Stderr, "ERROR: bad -shard")
 			os.Exit(2)
 		}
-		res := engine.RunShard(p, *tier, seed, i, n)
+		skip := map[int]bool{}
+		for _, f := range strings.Split(*skipFlag, ",") {
+			if k, err := strconv.Atoi(f); err == nil {
+				skip[k] = true
+			}
+		}
+		res := engine.RunShard(p, *tier, seed, i, n, skip, *only)
 		enc := json.NewEncoder(os.Stdout)
 		if err := enc.Encode(res); err != nil {
 			fmt.Fprintln(os.Stderr, "ERROR:", err)
